@@ -81,7 +81,7 @@ def cases(ctx):
     # seeded samples beyond the enumerated range (more arguments, constants, bigger N)
     rng = ctx.rng("sampled")
     for i in range(ctx.pick(30, 400)):
-        w = cropkit.gen_workload(rng, nmax=30, nmin=2, kinds=KINDS["raw"])
+        w = cropkit.gen_workload(rng, nmax=30, nmin=2, kinds=KINDS["raw"], exotic=True)
         if w["mode"] != "grid":
             w["via"] = rng.choice(["sow_combos", "sow_cases"])
         n = gens.n_settings(w["combos"], w["cases"])
